@@ -354,6 +354,9 @@ def classify_reject_all(rj):
         texts = {e[3] for e in (exp, act) if e and e[0] == 'msg'}
         if kinds & {'recto', 'consume'} or texts & set(RECOVERY_TEXT):
             out.add('recovery')
+        # a custom lexer asked at the right offset but handed another source point
+        if act and exp[0] == 'lexcall' and act[0] == 'lexcall' and act[1] == exp[1] and act[2:4] != exp[2:4]:
+            out.add('position')
     return out
 
 
@@ -749,6 +752,15 @@ def check_C10(tier, seed):
             pipeline.add_jobs(el, [[rng.choice(alpha) for _ in range(rng.randint(3, 30))]], verbose=bool(rng.getrandbits(1)), tag='r')
         lex_entries.append(el)
     entries += lex_entries
+    # a custom lexical analyzer whose lexemes contain line breaks (a multi-line literal, a comment): the source point it is
+    # handed for the NEXT term, and the positions in later messages and values, must have moved to the right line
+    eclex = pipeline.clex_entry(cat['left_rec'], gid='c10clex@clex')
+    calpha = [0x40, 0x41, 0x42, 10, 32, 0x21]            # term 0 with 1, 2 and 3 characters; newline; blank; a byte that is no term
+    cins = [sx for sx in gram.all_strings(calpha, 4)]
+    cins += [[0x42, 10, 10, 0x40, 0x21], [0x41, 10, 0x42, 10, 32, 0x40, 10, 0x21], [0x43, 10, 10, 10, 0x40]]
+    for (ws, nl) in ((1, 1), (1, 0), (0, 1), (0, 0)):
+        pipeline.add_jobs(eclex, cins if (ws, nl) == (1, 1) else cins[::4], verbose=True, ws=ws, nl=nl, tag='o%d%d_' % (ws, nl))
+    entries.append(eclex)
     res, work = prun.run(entries, 'C10', design_L=None, do_product=False, tlc_procs=4 if tier == 'quick' else 8, tlc_workers=4 if tier == 'quick' else 2)
     domain = {e.gid for e in entries}
     judge_traces(out, entries, res, {'position'}, domain)
@@ -1760,6 +1772,10 @@ def check_C06(tier, seed):
                                    'bytes': j[6] if len(j[6]) < 5000 else j[6][:5000], 'ws': 1, 'nl': 1, 'verbose': 0, 'stream': 0, 'buf': j[1]})
         for r in recs:
             bad = [ev for ev in r['events'] if ev[0].startswith('oob')]
+            if r.get('stackspan', 0) > 65536 and label == 'plain':
+                # parse() is a loop (Driver.tla: one step per action, nothing nested): its call-outs all come from about the same
+                # depth of the machine stack; a distance that grows with the input ends in a stack overflow on a longer one
+                bad.append(['machine stack: %d bytes between the shallowest and the deepest call-out of one parse' % r['stackspan']])
             if bad or r['threw'] or r['overflow']:
                 e = [x for x in use if x.gid == r['g']][0]
                 out.violations.append({'summary': {'grammar': r['g'], 'class': '%s build: out-of-range access / exception on a long input' % label, 'events': bad[:3], 'threw': r['threw'],
@@ -1877,6 +1893,7 @@ def check_C07(tier, seed):
         if any(not r for (_, r, _) in g.rules):
             # nullable symbols: every short text without slack (several empty reductions stacked on few characters)
             ins += [(s, 1, 1) for s in gram.all_strings(alpha, 2 if tier == 'quick' else 3)]
+        nlay = 0
         for s in gengram.sentences(g, rng, 8 if tier == 'quick' else 25, max_len=14):
             ins.append((s, 1, 1))
             if s:
@@ -1892,6 +1909,16 @@ def check_C07(tier, seed):
                 for k_, b in enumerate(s):
                     dl += [b] + ([10, 10] if k_ % 2 == 0 else [13, 10, 13, 10, 32])
                 ins.append((dl, 1, 1))
+                # each of the six whitespace characters on its own, under each of the four whitespace option sets (what is
+                # skipped is decided by the options, in constant evaluation and at run time alike)
+                if len(s) <= 6 and nlay < (2 if tier == 'quick' else 5):
+                    nlay += 1
+                    for wsb in (9, 13, 11, 12, 32, 10):
+                        lay = []
+                        for b in s:
+                            lay += [b, wsb]
+                        for (ws_, nl_) in ((1, 1), (1, 0), (0, 1), (0, 0)):
+                            ins.append((lay, ws_, nl_))
         seen, uniq = set(), []
         for (b, ws, nl) in ins:
             k = (tuple(b), ws, nl)
@@ -2214,6 +2241,9 @@ def check_C18(tier, seed):
     if tier != 'quick':
         names += ['closure_memo', 'two_lists', 'unit_chain', 'err_block', 'err_nested', 'right_rec_empty', 'mutual_rec', 'expr_unary', 'expr_rassoc']
     entries = [pipeline.clex_entry(cat[n]) for n in names if n in cat]
+    # more terms than rules (and than nonterminals): every index the lexer may answer is a TERM index, whatever else the
+    # grammar has fewer of
+    entries.append(pipeline.clex_entry(gram.Grammar('wide_rule', ['S'], ['a', 'b', 'c', 'd', 'e'], 'S', [('S', ['a', 'b', 'c', 'd', 'e'], 0), ('S', ['S', 'e'], 0)])))
     L = 3 if tier == 'quick' else 4
     for e in entries:
         nt = len(e.g.ts)
@@ -2267,9 +2297,9 @@ def check_C13(tier, seed):
     out = Outcome()
     rng = random.Random(seed)
     cat = {g.name: g for g in catalogue()}
-    names = ['left_rec', 'paren_list', 'expr_strat', 'nullable_prefix', 'expr_amb', 'err_suite', 'two_lists', 'expr_unary', 'expr_ruleprec_low']
+    names = ['left_rec', 'paren_list', 'expr_strat', 'nullable_prefix', 'expr_amb', 'err_suite', 'two_lists', 'expr_unary', 'expr_ruleprec_low', 'nullable_then_nt']
     if tier != 'quick':
-        names += ['closure_memo', 'lr1_not_lalr', 'unit_chain', 'err_stmt', 'right_rec_empty', 'mutual_rec', 'dangling_else', 'opt_tail']
+        names += ['closure_memo', 'lr1_not_lalr', 'unit_chain', 'err_stmt', 'right_rec_empty', 'mutual_rec', 'dangling_else', 'opt_tail', 'nullable2_then_nt', 'root_listed_mid']
     entries = []
     for n in names:
         g = cat[n]
@@ -2503,38 +2533,64 @@ def check_C15(tier, seed):
         entries.append(e)
     nthr_traces = 0
     images = []
+
+    def run_threads(label, binp, es, is_host):
+        nonlocal nthr_traces
+        recs_all = vlib.scratch('C15run')
+        base = os.path.join(recs_all, 'x')
+        if is_host:
+            with open(base + '.desc', 'w') as f:
+                for e in es:
+                    f.write(e.desc)
+        pipeline._write_jobs(base + '.jobs', es)
+        env = dict(os.environ); env['VERIF_THREADS'] = str(T); env['TSAN_OPTIONS'] = 'halt_on_error=0:report_signal_unsafe=0'
+        cmd = [binp] + ([base + '.desc'] if is_host else []) + [base + '.jobs', base + '.out']
+        try:
+            r = subprocess.run(cmd, capture_output=True, text=True, timeout=300 if tier == 'quick' else 1200, env=env)
+        except subprocess.TimeoutExpired:
+            # (the run takes seconds; threads that corrupt each other's state may never finish)
+            out.violations.append({'summary': {'class': '%s build, %d threads on one parser object: no result within the time budget (calls that finish in isolation do not finish side by side)' % (label, T),
+                                               'grammars': [e.gid for e in es]}, 'kind': 'threads'})
+            return
+        if r.returncode != 0 or 'ThreadSanitizer' in r.stderr:
+            out.violations.append({'summary': {'class': '%s build, %d threads on one parser object: %s' % (label, T, 'data race reported by ThreadSanitizer' if 'ThreadSanitizer' in r.stderr else 'process ended with exit %s' % r.returncode),
+                                               'grammars': [e.gid for e in es], 'report': r.stderr[:1200]}, 'kind': 'threads'})
+        for rec in vlib.read_ndjson_lenient(base + '.out'):
+            if 'image' in rec:
+                images.append(rec)
+                if rec['changed']:
+                    out.violations.append({'summary': {'class': 'the parser object was modified by parse calls', 'grammar': rec['image'], 'bytes_changed': rec['changed'], 'object_size': rec['bytes'], 'build': label}, 'kind': 'threads'})
+            elif 'dump' in rec:
+                [e for e in es if e.gid == rec['dump']['g']][0].dump = rec['dump']
+            elif 'id' in rec and label.startswith('plain'):
+                [e for e in es if e.gid == rec['g']][0].traces.append(rec)
+                nthr_traces += 1
+                if any(ev[0] == 'lexshared' for ev in rec['events']):
+                    out.violations.append({'summary': {'class': 'one custom lexer object served two calls at the same time (its working data changed under a call)', 'grammar': rec['g'],
+                                                       'input': bytes(rec['bytes']).decode('latin-1')}, 'kind': 'threads'})
+
     for variant, plain, sanit in ((0, hosts['host0'], tsan), (1, hosts['host1'], tsan1)):
         es = [e for e in entries if e.mode == 'host%d' % variant]
         if not es:
             continue
         for label, binp in (('plain', plain), ('tsan', sanit)):
-            recs_all = vlib.scratch('C15run')
-            base = os.path.join(recs_all, 'x')
-            with open(base + '.desc', 'w') as f:
-                for e in es:
-                    f.write(e.desc)
-            pipeline._write_jobs(base + '.jobs', es)
-            env = dict(os.environ); env['VERIF_THREADS'] = str(T); env['TSAN_OPTIONS'] = 'halt_on_error=0:report_signal_unsafe=0'
-            try:
-                r = subprocess.run([binp, base + '.desc', base + '.jobs', base + '.out'], capture_output=True, text=True, timeout=300 if tier == 'quick' else 1200, env=env)
-            except subprocess.TimeoutExpired:
-                # (the run takes seconds; threads that corrupt each other's state may never finish)
-                out.violations.append({'summary': {'class': '%s build, %d threads on one parser object: no result within the time budget (calls that finish in isolation do not finish side by side)' % (label, T),
-                                                   'grammars': [e.gid for e in es]}, 'kind': 'threads'})
-                continue
-            if r.returncode != 0 or 'ThreadSanitizer' in r.stderr:
-                out.violations.append({'summary': {'class': '%s build, %d threads on one parser object: %s' % (label, T, 'data race reported by ThreadSanitizer' if 'ThreadSanitizer' in r.stderr else 'process ended with exit %s' % r.returncode),
-                                                   'grammars': [e.gid for e in es], 'report': r.stderr[:1200]}, 'kind': 'threads'})
-            for rec in vlib.read_ndjson_lenient(base + '.out'):
-                if 'image' in rec:
-                    images.append(rec)
-                    if rec['changed']:
-                        out.violations.append({'summary': {'class': 'the parser object was modified by parse calls', 'grammar': rec['image'], 'bytes_changed': rec['changed'], 'object_size': rec['bytes'], 'build': label}, 'kind': 'threads'})
-                elif 'dump' in rec:
-                    [e for e in es if e.gid == rec['dump']['g']][0].dump = rec['dump']
-                elif 'id' in rec and label == 'plain':
-                    [e for e in es if e.gid == rec['g']][0].traces.append(rec)
-                    nthr_traces += 1
+            run_threads(label, binp, es, True)
+    # ---- a parser with a CUSTOM lexical analyzer that keeps the working data of a call in its members (as hand-written
+    # scanners do): calls are independent only if no lexer OBJECT is shared between them
+    import gen_tu
+    eclex = pipeline.clex_entry(cat['paren_list'], gid='c15clex@clex')
+    nt_ = len(eclex.g.ts)
+    cins = [sx for sx in gram.all_strings([0x40 + 4 * i for i in range(nt_)] + [0x41, 0x20, 0x21], 4)][:300 if tier == 'quick' else 2000]
+    cins += [[0x40 + 4 * eclex.g.ts.index(chr(c)) for c in sx] for sx in gengram.sentences(eclex.g, rng, 10, max_len=40)]
+    pipeline.add_jobs(eclex, cins, verbose=False)
+    pipeline.add_jobs(eclex, cins[::5], verbose=True, tag='v')
+    csrc = os.path.join(work, 'c15clex.cpp')
+    with open(csrc, 'w') as f:
+        f.write(gen_tu.clex_tu(eclex.g, eclex.gid))
+    cbins = vlib.build_many([('c15clex_plain', csrc, ()), ('c15clex_tsan', csrc, ('-fsanitize=thread', '-g'), 'clang++')])
+    entries.append(eclex)
+    for label in ('plain', 'tsan'):
+        run_threads(label + ' (custom lexer)', cbins['c15clex_' + label], [eclex], False)
     # every per-thread trace must be a behaviour of the SEQUENTIAL specification, with the verdict/tree of the isolated call
     live = [e for e in entries if e.dump is not None and e.traces]
     tasks = []
